@@ -264,6 +264,12 @@ def run_regroup(ctx, loe, rng, widths, mlw, bs):
     inp = dict(stage='process_lines(transformer)', widths=widths, max_line_width=mlw, batch_size=bs, parts=parts)
     try:
         tr, lg, co = eng.process_lines(lines, sparse_logits=False)
+    except AttributeError as e:
+        # the engine object is built without its constructor (no checkpoint): an attribute the loop newly needs is missing on the stand-in
+        ctx.count('regroup_engine_standin_unusable')
+        if 'stand-in engine' not in ' '.join(ctx.notes):
+            ctx.notes.append('stand-in engine object lacks an attribute process_lines uses (%r): regroup correspondence skipped' % (e,))
+        return
     except Exception as e:
         ctx.violation('regroup-raises:' + type(e).__name__, 'process_lines raised %r' % (e,), inp)
         return
